@@ -1123,7 +1123,7 @@ func (fr *Frame) bindBoxed(st *State, p *types.Var, val *Term) {
 	if isStructVal(p.Type()) {
 		e.storeObj(st, ref, p.Type(), val)
 	} else {
-		e.store(st, &Loc{Kind: LGlobal, Key: "box$" + p.Name() + fmt.Sprint(p.Pos()), T: p.Type()}, val)
+		e.store(st, e.cellLoc(ref, p.Type()), val)
 	}
 }
 
